@@ -65,16 +65,26 @@ def refresh (j : JB) (st : Step) : JB :=
     setGhost j { id := b.id, disk := old.bind (·.disk), text := b.text, row := if b.slot == 0 then st.xrow else b.row,
                  dirty := b.dirty, histU := b.histU, histN := b.histN, savedAt := old.bind (·.savedAt) }) j
 
-def judgeBufStep (mode : Nat) (j : JB) (prev next : Step) (ln txt : Bytes) : JB :=
+def judgeBufStep (mode : Nat) (j : JB) (prev0 next : Step) (ln txt : Bytes) : JB :=
   let _ := txt
   let known := (Ex.exIdx (splitCmd ln).2.1).isSome
   let single := isSingle ln && known
   let (loc, cmdB, arg) := splitCmd ln
   let cmd := str cmdB
+  let base := cmd.replace "!" ""
+  -- `:b ~` renumbers the buffers (no switch): the judge follows the buffers, slot by slot, to their new numbers
+  let renum := single && base == "b" && arg.headD 0 == 126 && prev0.bufs.length == next.bufs.length
+  let newId (id : Int) : Int :=
+    if !renum then id else
+    match prev0.bufs.find? (·.id == id) with
+    | some a => (match next.bufs.find? (·.slot == a.slot) with | some b => b.id | none => id)
+    | none => id
+  let prev : Step := if renum then { prev0 with bufs := prev0.bufs.map (fun a => { a with id := newId a.id }) } else prev0
+  let j : JB := if renum then { j with ghosts := j.ghosts.map (fun g => { g with id := newId g.id }) } else j
   let pc := curBuf prev
   let nc := curBuf next
-  let bang := hasBangS cmd
-  let base := cmd.replace "!" ""
+  -- `:b !` deletes the current buffer: an explicit discard, like `q!`
+  let bang := hasBangS cmd || (base == "b" && arg.headD 0 == 33)
   let mut_errs : List String := []
   let e02a : List String := []
   -- ---------- guards (C02) and switching (C20)
